@@ -112,6 +112,7 @@ class World:
         self.trs = []
         self.allow_block = False
         self.fail_rename = set()
+        self.fail_remove = False     # oracle-only runs: removing a temp file is refused by the file system
         self.problems = []             # harness-level surprises (kept in the trace)
 
         class Ser(crt.BaseCRTRequestSerializer):
@@ -153,6 +154,19 @@ class World:
 
             def remove_file(self, filename):
                 w.emit(('rm', w.cur))
+                if w.fail_remove:
+                    # the file system refuses the removal (EACCES, not ENOENT): OSUtils.remove_file
+                    # swallows OSError, so nothing may escape into the done-callback chain
+                    real = os.remove
+
+                    def refuse(path, *a, **k):
+                        raise PermissionError(13, 'injected: permission denied', path)
+                    os.remove = refuse
+                    try:
+                        super().remove_file(filename)
+                    finally:
+                        os.remove = real
+                    return
                 super().remove_file(filename)
 
         self.client = S3Client()
@@ -526,9 +540,10 @@ def model_results(model_out):
     return [seg.split(';', 1)[0] for seg in model_out.split(' | ')] if model_out else []
 
 
-def run_impl(patch, root, permits, ops, model_res=None):
+def run_impl(patch, root, permits, ops, model_res=None, fail_remove=False):
     """-> (trace string, oracle failures, configured permit count)."""
     w = World(permits, root)
+    w.fail_remove = fail_remove
     patch.world = w
     segs, steps = [], []
     try:
@@ -594,8 +609,8 @@ def oracle_step(w, op, res, log_from):
                                (pos.get('r') and min(pos[h]) > min(pos['r'])) or
                                (pos.get('f') and min(pos[h]) > min(pos['f']))):
                 bad.append(('order', f'transfer #{t.idx}: temp file {"renamed" if h == "mv" else "removed"} after a done callback'))
-        # publish or remove
-        if t.kind == 'p' and t.req is not None and t.req.delivered:
+        # publish or remove (not judged when the harness makes the removal itself fail)
+        if t.kind == 'p' and t.req is not None and t.req.delivered and not w.fail_remove:
             te, de = os.path.exists(t.temp), os.path.exists(t.dest)
             if te:
                 bad.append(('publish-or-remove', f'download #{t.idx} finished ({t.finished_with}) but its temporary file is still there'))
@@ -612,7 +627,7 @@ def oracle_step(w, op, res, log_from):
             if not w.coord_event(w.coord(t.future)).is_set() or \
                     w.by_idx.get(t.idx, []).count('d') != t.nsubs:
                 bad.append(('shutdown', f'shutdown({bool(op[1])}) returned before the done callbacks of transfer #{t.idx} ran'))
-            if t.temp and os.path.exists(t.temp):
+            if t.temp and os.path.exists(t.temp) and not w.fail_remove:
                 bad.append(('shutdown', f'shutdown({bool(op[1])}) returned with a temporary file of #{t.idx} left'))
     if val > w.count:
         bad.append(('conservation', f'after {op_token(op)}: {val} permits available, more than the configured {w.count}'))
@@ -620,7 +635,7 @@ def oracle_step(w, op, res, log_from):
         bad.append(('blocks-not-fails', f'submit raised {res[7:]}'))
     if op[0] == 'S' and res == 'block!':
         bad.append(('conservation', 'acquire would block although the semaphore value was positive'))
-    if w.extra_files():
+    if w.extra_files() and not w.fail_remove:
         bad.append(('publish-or-remove', f'unexpected files in the destination directory: {w.extra_files()}'))
     return bad
 
@@ -1011,6 +1026,7 @@ def run(ctx):
                 correspondence(ctx, patch, root)
             else:
                 search_after_break(ctx, patch, root)
+            remove_refused(ctx, patch, root)
         t2 = time.time()
         for rule, name, what in thread_tests(ctx):
             ctx.report(f'oracle:{rule}:thread-test:{name}', what,
@@ -1111,6 +1127,33 @@ def correspondence(ctx, patch, root):
     ctx.cov['traces_validated_against_impl'] = len(cases)
 
 
+def remove_refused(ctx, patch, root):
+    """Oracle-only stream: the file system refuses to remove temp files (EACCES).  The glue's
+    obligations that do not depend on the file being gone still hold: one release per transfer,
+    on_done subscribers before the after-done flag, shutdown returns only after every callback."""
+    rng = ctx.rng('rmfail')
+    cases = [(2, ops) for ops in exhaustive(3)]
+    for _ in range(300 if ctx.thorough() else 60):
+        cases.append(random_case(rng))
+    for p, ops in cases:
+        if len(ctx.violations) >= 5:
+            break
+        if not any(o[0] == 'S' and o[1] == 'p' for o in ops):
+            continue
+        try:
+            trace, bad, count = run_impl(patch, root, p, ops, None, fail_remove=True)
+        except Exception as e:      # noqa: an exception escaping the CRT glue on this stream is a finding
+            bad, count = [('escaped', f'{type(e).__name__}: {e} escaped the manager')], p
+        ctx.count('crt-remove-refused', 1, nontrivial_key=model_line(count, ops))
+        if bad:
+            rule, what = bad[0]
+            ctx.report(f'oracle:rmfail:{rule}:{model_line(count, ops)}',
+                       f'with temp-file removal refused by the file system: {what} [permits={count}, ops: '
+                       f'{" ".join(op_token(o) for o in ops)}]',
+                       {'kind': 'history', 'component': 'crt', 'case': {'permits': p, 'ops': jsonable(ops), 'fail_remove': True},
+                        'rule': rule})
+
+
 def search_after_break(ctx, patch, root):
     """A proof obligation, the build or the translator broke: search the
     implementation alone for a history that violates C20."""
@@ -1148,7 +1191,7 @@ def replay(ctx, data):
         root = tempfile.mkdtemp(prefix='verif-c20-')
         try:
             with Patched() as patch:
-                trace, bad, _ = run_impl(patch, root, case.get('permits'), from_json(case['ops']), None)
+                trace, bad, _ = run_impl(patch, root, case.get('permits'), from_json(case['ops']), None, fail_remove=bool(case.get('fail_remove')))
         finally:
             shutil.rmtree(root, ignore_errors=True)
         print('trace:', trace)
